@@ -264,6 +264,17 @@ def check_b(ck, repo):
     N = next(iter(names)) if len(names) == 1 and all(isinstance(r.value, ast.Name) for r in rets) else None
     scat = [x for x in own_nodes(ap.node) if isinstance(x, ast.Assign) and any(isinstance(t, ast.Subscript) and src_of(t.value) == N for t in x.targets)] if N else []
     ck.verdict(N is not None and len(scat) >= 2, "C08.b", ap, f"returns {sorted(names)}", "the only value returned is the array the per-bucket results and the fallback were scattered into", f"_apply_predict_method returns {sorted(src_of(r.value) for r in rets if r.value is not None)}: some path bypasses the per-bucket scatter and the fallback for rows whose bucket was empty at training time (bucket id -1)")
+    # the buffer keeps what the bucket models return: float64 (default), never the dtype of X
+    if N:
+        allocs = [x for x in own_nodes(ap.node) if isinstance(x, ast.Assign) and any(isinstance(t, ast.Name) and t.id == N for t in x.targets) and isinstance(x.value, ast.Call) and src_of(x.value.func) in ("numpy.zeros", "numpy.empty", "numpy.full", "numpy.ones")]
+        for x in allocs:
+            dt = [k.value for k in x.value.keywords if k.arg == "dtype"]
+            if not dt and src_of(x.value.func) != "numpy.full" and len(x.value.args) > 1:
+                dt = [x.value.args[1]]
+            if not dt and src_of(x.value.func) == "numpy.full" and len(x.value.args) > 2:
+                dt = [x.value.args[2]]
+            lossy = [d for d in dt if src_of(d).replace('"', "'") not in ("float", "numpy.float64", "'float64'", "numpy.double", "None")]
+            ck.verdict(not lossy, "C08.b", ap, x, "the output buffer stores the bucket models' outputs unchanged (float64)", f"the output buffer is allocated with dtype={src_of(lossy[0]) if lossy else ''}: the bucket models' outputs are cast when scattered (integer features truncate predictions, probabilities no longer sum to one), so the output for a row is not its bucket's model's output")
     if len(sites) == 1:
         inner = sites[0][2]
         a3 = ex.text(inner.args[3], ap, enclosing_stmt(sites[0][0])) if len(inner.args) > 3 else None
@@ -569,6 +580,19 @@ def check_e(ck, repo):
                 setm2 = [x for x in order if isinstance(x.targets[0], ast.Subscript) and src_of(x.targets[0].value) == "mapping"]
                 if len(defs_n) == 1 and len(setm2) == 1 and src_of(defs_n[0].value).replace(" ", "") == "len(mapping)" and order.index(defs_n[0]) < order.index(setm2[0]) and src_of(setm2[0].value) == n_ and _keyfun(ex.norm_expr(setm2[0].targets[0].slice, mt, setm2[0]))[0] == "ROW" and not [x for x in own_nodes(mt.node) if isinstance(x, (ast.Delete,)) or (isinstance(x, ast.Call) and isinstance(x.func, ast.Attribute) and x.func.attr in ("pop", "clear", "popitem") and src_of(x.func.value) == "mapping")]:
                     okf = True
+        # a leaf gets no bucket only when no training row falls into it: the facts guarding the
+        # store are the binner kind and the emptiness of the very mask the rows are labelled with
+        facts1 = conds_at(repo, mt, s1)
+        mask_t = ast.unparse(ex.norm_expr(s1.targets[0].slice, mt, s1))
+        other = []
+        for t_, pol_ in facts1:
+            if t_.startswith("hasattr(") and pol_:
+                continue
+            empt = {cond_text(f"numpy.any({mask_t})"), cond_text(f"({mask_t}).any()"), cond_text(f"({mask_t}).sum() > 0"), cond_text(f"({mask_t}).sum() == 0", False), cond_text(f"numpy.sum({mask_t}) > 0"), cond_text(f"numpy.count_nonzero({mask_t}) > 0"), cond_text(f"({mask_t}).sum()")}
+            if (t_, pol_) in empt:
+                continue
+            other.append(f"{t_} is {pol_}")
+        ck.verdict(not other, "C08.e", mt, f"guards of {src_of(s1)[:40]}", "a leaf is left without bucket only when none of the training rows falls into it", f"a leaf is given a bucket only when {other}: a leaf holding training rows can be left without local model (its rows go to the fallback model), so there is not one model per non-empty training bucket")
         ck.verdict(okf, "C08.e", mt, s1, "fit stores a fresh consecutive bucket id under the leaf id and labels the leaf's rows with it", "fit does not store the bucket id under the leaf id it labels rows with, or ids are not consecutive")
         # the leaf list: nodes without children of the fitted tree, returned as leaves_
         lp = [c for c in own_nodes_incl_lambda(mt.node) if isinstance(c, ast.ListComp) and "children_left" in src_of(c)]
@@ -631,6 +655,7 @@ WITNESSES = [
     {"name": "predict-init-zero", "file": _F, "rule": "C08.e", "old": "            association = numpy.zeros((X.shape[0],))\n            association[:] = -1\n            tr = binner.transform(X)\n", "new": "            association = numpy.zeros((X.shape[0],))\n            tr = binner.transform(X)\n"},
     {"name": "predict-mask-ge", "file": _F, "rule": "C08.e", "old": "            for j in self.leaves_:\n                ind = dec_path[:, j] == 1\n", "new": "            for j in self.leaves_:\n                ind = dec_path[:, j] >= 0\n"},
     {"name": "shared-generator-in-list", "file": _F, "rule": "C08.d", "old": "            seeds = rnd.randint(numpy.iinfo(numpy.int32).max, size=len(estimators))\n", "new": "            seeds = [rnd for _ in estimators]\n"},
+    {"name": "apply-buffer-dtype-of-X", "file": _F, "rule": "C08.b", "old": "        pred = numpy.zeros((X.shape[0], dimout) if dimout > 1 else (X.shape[0],))\n", "new": "        pred = numpy.zeros((X.shape[0], dimout) if dimout > 1 else (X.shape[0],), dtype=X.dtype)\n"},
     {"name": "classifier-predict-argmax", "file": _F, "rule": "C08.b", "old": "        pred = self._apply_predict_method(X, \"predict\", _predict_piecewise_estimator, 1)\n        return pred.astype(numpy.int32)\n", "new": "        proba = self.predict_proba(X)\n        return numpy.argmax(proba, axis=1).astype(numpy.int32)\n"},
     {"name": "key-argmax", "file": _F, "rule": "C08.e", "old": "d = tuple(numpy.asarray(x.todense()).ravel().astype(numpy.int32))", "new": "d = (int(x.argmax()),)", "count": 3},
     {"name": "single-bucket-fast-path", "file": _F, "rule": "C08.b", "old": "        association = self.transform_bins(X)\n\n        indpred", "new": "        association = self.transform_bins(X)\n        first = int(association[0])\n        if numpy.all(association == first):\n            return getattr(self.estimators_[first], method)(X)\n\n        indpred"},
